@@ -173,6 +173,9 @@ def norm(t):
         r = sym.proj_reduce(inner, path)
         if r != ("proj", inner, path):
             return norm(r)
+        if path and path[0][0] != "tuple" and "::" not in str(path[0][0]) and path[0][0] not in ("slice",):
+            # a binding of a struct pattern (`let Rule { head, .. } = x`) is the field access `x.head`
+            return norm(("proj", ("fieldof", inner, path[0][1]), path[1:])) if path[1:] else ("fieldof", inner, path[0][1])
         return ("proj", inner, path)
     if t[0] == "place" and len(t) == 2 and isinstance(t[1], str):
         parts = t[1].split(".")
@@ -309,6 +312,18 @@ def cond_tests(c, pol):
                 if r == []:
                     return False
                 return [] if r is False else [("not", tuple(r))]
+        if c[0] == "bin" and c[1] in ("Eq", "Ne"):
+            # `x == Enum::Variant` for a variant without payload is `matches!(x, Enum::Variant)`
+            a, b = c[2], c[3]
+            if isinstance(a, tuple) and a[:1] == ("ctor",) and not a[2] and not (isinstance(b, tuple) and b[:1] == ("ctor",)):
+                a, b = b, a
+            if isinstance(b, tuple) and b[:1] == ("ctor",) and len(b) == 3 and not b[2] and "::" in str(b[1]) and not (isinstance(a, tuple) and a[:1] == ("ctor",)):
+                r = pat_tests(a, ("ctor", b[1], ()))
+                if (c[1] == "Eq") == pol:
+                    return r
+                if r == []:
+                    return False
+                return [] if r is False else [negate(r)]
         if c[0] == "bin" and c[1] in ("Eq", "Ne"):
             # comparison of two opaque values: one spelling (== with ordered operands)
             a, b = sorted((norm(strip_acc(c[2])), norm(strip_acc(c[3]))), key=stable_key)
@@ -809,8 +824,24 @@ def _bool_atoms(x, out):
             return
         if x[0] == "lit" and isinstance(x[1], bool):
             return
+    r = _as_facts(x)
+    if r is not None:
+        for t in r:
+            test_atoms(t, out)
+        return
     if ("b", x) not in out:
         out.append(("b", x))
+
+
+def _as_facts(x):
+    """an atomic condition that is a statement about a value's variant / content (`x == Enum::A`, `matches!(x, ..)`, `if let`) as facts; None
+    when it is an opaque boolean"""
+    if not (isinstance(x, tuple) and x and x[0] in ("bin", "matches", "iflet")):
+        return None
+    r = cond_tests(x, True)
+    if r is False or r == [] or (len(r) == 1 and r[0][0] == "cond"):
+        return None
+    return r
 
 
 def _bool_value(x, asg):
@@ -824,6 +855,9 @@ def _bool_value(x, asg):
             return not _bool_value(x[2], asg)
         if x[0] == "lit" and isinstance(x[1], bool):
             return x[1]
+    r = _as_facts(x)
+    if r is not None:
+        return all(test_holds(t, asg) for t in r)
     return asg[("b", x)]
 
 
